@@ -164,7 +164,9 @@ pub fn script(k: ScriptK) -> Script {
     }
 }
 
-fn range_proof(k: ProofK) -> RangeProof {
+/// `salt` makes the proofs of different roles and positions different byte strings (two fields that
+/// hold the same bytes cannot show that one was marshalled in the other's place)
+fn range_proof(k: ProofK, salt: u8) -> RangeProof {
     match k {
         ProofK::Empty => RangeProof::EMPTY,
         ProofK::Short | ProofK::Long => {
@@ -173,25 +175,25 @@ fn range_proof(k: ProofK) -> RangeProof {
             let abf = Tweak::from_slice(&[1u8; 32]).unwrap();
             let gen = Generator::new_blinded(&secp, tag, abf);
             let vbf = Tweak::from_slice(&[2u8; 32]).unwrap();
-            let val = 12345u64;
+            let val = 12345u64 + salt as u64;
             let com = PedersenCommitment::new(&secp, val, vbf, gen);
-            let sk = SecretKey::from_slice(&[3u8; 32]).unwrap();
+            let sk = SecretKey::from_slice(&[3u8.wrapping_add(salt); 32]).unwrap();
             let (exp, bits) = if k == ProofK::Short { (0, 4) } else { (0, 52) };
             RangeProof::new(&secp, 1, com, val, vbf, &[], &[], sk, exp, bits, gen).expect("range proof")
         }
     }
 }
-fn surjection_proof(k: ProofK) -> SurjectionProof {
+fn surjection_proof(k: ProofK, salt: u8) -> SurjectionProof {
     match k {
         ProofK::Empty => SurjectionProof::EMPTY,
         ProofK::Short => {
             let mut v = vec![1u8, 0, 0x01];
-            v.extend([0x11u8; 64]);
+            v.extend([0x11u8.wrapping_add(salt); 64]);
             SurjectionProof::from_slice(&v).expect("surjection proof")
         }
         ProofK::Long => {
             let mut v = vec![8u8, 0, 0xff];
-            v.extend((0..32 * 9).map(|i| (i % 253) as u8));
+            v.extend((0..32 * 9).map(|i| ((i + salt as usize) % 253) as u8));
             SurjectionProof::from_slice(&v).expect("surjection proof")
         }
     }
@@ -253,8 +255,8 @@ pub fn build(spec: &EnvSpec) -> Built {
             sequence: Sequence::from_consensus(i.sequence),
             asset_issuance,
             witness: TxInWitness {
-                amount_rangeproof: if i.issuance != IssK::None { range_proof(i.iss_proofs) } else { RangeProof::EMPTY },
-                inflation_keys_rangeproof: if i.issuance == IssK::New { range_proof(i.iss_proofs) } else { RangeProof::EMPTY },
+                amount_rangeproof: if i.issuance != IssK::None { range_proof(i.iss_proofs, 2 * input.len() as u8 + 1) } else { RangeProof::EMPTY },
+                inflation_keys_rangeproof: if i.issuance == IssK::New { range_proof(i.iss_proofs, 2 * input.len() as u8 + 2) } else { RangeProof::EMPTY },
                 script_witness: Witness::from(stack),
                 pegin_witness,
             },
@@ -264,12 +266,13 @@ pub fn build(spec: &EnvSpec) -> Built {
     let output: Vec<TxOut> = spec
         .outputs
         .iter()
-        .map(|o| TxOut {
+        .enumerate()
+        .map(|(k, o)| TxOut {
             asset: asset(o.asset),
             value: value(o.value),
             nonce: nonce(o.nonce),
             script_pubkey: if o.fee { Script::new() } else { script(o.script) },
-            witness: TxOutWitness { surjection_proof: surjection_proof(o.surjection), rangeproof: range_proof(o.range) },
+            witness: TxOutWitness { surjection_proof: surjection_proof(o.surjection, k as u8), rangeproof: range_proof(o.range, 100 + k as u8) },
         })
         .collect();
     let tx = Arc::new(Transaction { version: spec.version, lock_time: LockTime::from_consensus(spec.lock_time), input, output });
@@ -377,12 +380,17 @@ pub fn one_deviation_envs() -> Vec<(String, EnvSpec)> {
 /// carried over from the previous index, is invisible when only input 0 or only the last input deviates.
 pub fn positional_envs() -> Vec<(String, EnvSpec)> {
     let mut b = base_env();
+    // pairwise distinct in every field that has more than one legal value
     b.inputs = vec![
         InSpec { prev_txid: 0xeb, vout: 0, sequence: 0xffff_fffe, ..base_in() },
-        InSpec { prev_txid: 0x77, vout: 1, sequence: 0xffff_fff0, utxo_value: ValK::Explicit(20_000), ..base_in() },
-        InSpec { prev_txid: 0x78, vout: 2, sequence: 0xffff_fff1, utxo_value: ValK::Explicit(30_000), ..base_in() },
+        InSpec { prev_txid: 0x77, vout: 1, sequence: 0xffff_fff0, utxo_value: ValK::Explicit(20_000), utxo_asset: AssetK::Explicit(0x24), utxo_script: ScriptK::OneByte, script_sig: ScriptK::OneByte, ..base_in() },
+        InSpec { prev_txid: 0x78, vout: 2, sequence: 0xffff_fff1, utxo_value: ValK::Explicit(30_000), utxo_asset: AssetK::Explicit(0x25), utxo_script: ScriptK::Long, ..base_in() },
     ];
-    b.outputs = vec![base_out(), OutSpec { value: ValK::Explicit(11), script: ScriptK::Long, ..base_out() }, OutSpec { value: ValK::Explicit(3300), fee: true, ..base_out() }];
+    b.outputs = vec![
+        base_out(),
+        OutSpec { value: ValK::Explicit(11), script: ScriptK::Long, asset: AssetK::Explicit(0x24), nonce: NonceK::Explicit(9), ..base_out() },
+        OutSpec { value: ValK::Explicit(3300), fee: true, ..base_out() },
+    ];
     let mut v: Vec<(String, EnvSpec)> = vec![];
     for ix in 0..3u32 {
         let mut e = b.clone();
